@@ -156,7 +156,10 @@ def verify_unit(reg, idx: SourceIndex, c: Contract, timeout_ms=None, seed=0, dis
                     try:
                         rv = V.coerce(eng.as_sym(rv), c.result)
                     except V.ShapeError as e:
-                        raise BindingLost(f"result shape: {e}")
+                        try:
+                            rv = eng.narrow(eng.as_sym(rv), c.result, o.st, c, "return")
+                        except OutOfSubset:
+                            raise BindingLost(f"result shape: {e}")
                 env["result"] = rv
                 for name, text in c.ensures:
                     goal = eng.truth(eng.spec_eval(text, env, o.st, mod, c), o.st)
